@@ -148,3 +148,27 @@ def S_(x):
             t = z3.SetAdd(t, P(k))
         return t
     raise EngineUnsupported("not a set of paths: %r" % (type(x),))
+
+
+class RecDict:
+    """a dict whose keys may be symbolic: records writes in order; reads are loud (the code under contract only
+    writes to it).  `base_nonempty` is the truth value before any recorded write."""
+    __vf_symbolic__ = True
+
+    def __init__(self, base_nonempty=False):
+        self.writes = []
+        self.base_nonempty = base_nonempty
+
+    def __setitem__(self, k, v):
+        self.writes.append((k, v))
+
+    def __bool__(self):
+        return bool(self.writes) or self.base_nonempty
+
+    def __getitem__(self, k):
+        raise EngineUnsupported("read of a recording dict")
+
+    def __getattr__(self, k):
+        if k.startswith("__") and k.endswith("__"):
+            raise AttributeError(k)
+        raise EngineUnsupported("RecDict.%s is not modelled" % k)
